@@ -366,8 +366,7 @@ End EndToEnd.
 From Helm Require Import Gen.IgnoreConsts.
 
 Lemma ignore_constants :
-  (ignore_default_rules = ["templates/.?*"] /\ ignore_contains_checks = ["**"; "/"] /\
-   ignore_match_probes = ["abc"] /\ ignore_prefix_checks = ["#"; "!"; "/"] /\ ignore_suffix_checks = ["/"]) /\
+  (ignore_default_rules = ["templates/.?*"] /\ ignore_match_probes = ["abc"]) /\
   (* the model installs exactly the built-in rules of AddDefaults after the rules of the file ... *)
   (forall (pe : string -> bool) (text : option string),
      parse_ignore pe text =
